@@ -26,7 +26,8 @@ for p in props:
             "design_ref": "DESIGN.md section 3, " + pid,
         },
         "level_note": spec.get("level_note", "Trusted: gosym's SSA semantics (validated per run against native execution of witness assignments), z3, the environment stubs listed in the evidence file, and the paper composition of lemmas. Outside the claim: " + spec.get("outside", "")),
-        "technique": spec.get("technique", "solver-based bounded symbolic execution of go/ssa (gosym + z3), native replay of counterexamples"),
+        "technique": spec.get("technique", "solver-based bounded symbolic execution of go/ssa (gosym + z3), native replay of counterexamples"
+                              + ("; explored schedules are additionally checked by a happens-before data race tracker (confirmed with go test -race)" if pid in ("C02", "C09", "C13", "C18") else "")),
     })
 m = {
     "version": 1,
